@@ -1,5 +1,5 @@
 """C09 - grouping and counting notes follow the documented rules (structural clauses)."""
-from ..rules import fwd, notes, records, grouping, baseline
+from ..rules import fwd, notes, records, grouping, baseline, state
 
 EXPLANATION = (
     "Static rule checking of group_notes and the counting functions: R-ENUM every dispatch chain on an enum option handles every "
@@ -47,6 +47,10 @@ def sweep(ctx):
 
 sweep.thorough_only = True
 
+def c_state(ctx):
+    state.shared_state(ctx, ['simfile.notes.group:group_notes', 'simfile.notes.count:count_steps', 'simfile.notes.count:count_holds', 'simfile.notes.count:count_rolls', 'simfile.notes.count:count_mines'], 'what grouping / counting answers depends on the stream and the options only')
+
+
 def c_api(ctx):
     baseline.surface(ctx, "C09: documented surface", modules=['simfile.notes.group', 'simfile.notes.count', 'simfile.notes'])
 
@@ -56,5 +60,6 @@ CLAUSES = [
     ("C09.3", "nothing buffered is lost; the type filter precedes both branches (R-ORDER)", c3),
     ("C09.4", "a joined head keeps its fields (R-REBUILD)", c4),
     ("C09.sweep", "package-wide option forwarding and enum-dispatch census (thorough)", sweep),
+    ("C09.state", "no process-wide state behind grouping / counting: two streams being grouped at the same time do not see each other (R-STATE)", c_state),
     ("C09.api", "public surface: signatures and defaults, constants, enumerations, blank templates, base classes as confirmed (R-API)", c_api),
 ]
